@@ -1,11 +1,12 @@
 SPEC_PART = dict(
     props_file="C13_bloom",
-    legs=[dict(family="bloom", focus="foreign", oracles=["prop_foreign"], profiles=["debug", "release"], n_quick=100, n_thorough=1000)],
+    legs=[dict(family="bloom", focus="foreign", oracles=["prop_foreign"], profiles=["debug", "release"], n_quick=100, n_thorough=1000, panic_is_violation=True)],
     trusted=["the variants a Java/C++ BloomFilter writer can emit are taken to be: short form for the empty filter, long form with the "
-             "exact bit count, long form with the dirty marker -1 (count to be recomputed by the reader); unused fields ignored"],
+             "exact bit count, long form with the dirty marker -1 (count to be recomputed by the reader); the unused fields and the seven "
+             "undefined bits of the flags byte are ignored by a reader (arbitrary in the theorem and in the generated images)"],
     assumptions=[],
     covers="bloom: bf_deserialize (enc_spec v a) = Ok s with abs s = a for every abstract state and every variant (short / exact / "
-           "dirty count, arbitrary bytes in the unused fields) (c13_bloom_reader_accepts), accepted values are well formed; tie: images "
+           "dirty count, arbitrary bytes in the unused fields, arbitrary undefined flag bits) (c13_bloom_reader_accepts), accepted values are well formed; tie: images "
            "built by the generator from its own picture of a filter (inserted, inverted, full, arbitrary bit sets) are deserialized "
            "by the crate and accessors, membership queries, re-serialization, forks, unions / intersections with native filters, "
            "inverts and further inserts are judged against the Spec state of the image; every specification-valid image must be accepted",
